@@ -1062,3 +1062,17 @@ func bindFuncParams(fn *ssa.Function) func() {
 		}
 	}
 }
+
+// stripConvs: v without the conversions (Convert, ChangeType) wrapped around it.
+func stripConvs(v ssa.Value) ssa.Value {
+	for {
+		switch x := v.(type) {
+		case *ssa.Convert:
+			v = x.X
+		case *ssa.ChangeType:
+			v = x.X
+		default:
+			return v
+		}
+	}
+}
